@@ -42,6 +42,9 @@ class FrameItem(EFLRItem):
         self.index_min = NumericAttribute('index_min')
         self.index_max = NumericAttribute('index_max')
 
+        # attribute parts (value / units) set from the data when the frame was last written: (attribute, part, object)
+        self._set_from_data: list[tuple[Attribute, str, Any]] = []
+
         super().__init__(name, parent=parent, **kwargs)
 
     @staticmethod
@@ -84,6 +87,13 @@ class FrameItem(EFLRItem):
         This assumption is frequently made in DLIS readers.
         """
 
+        # what was derived from the data at an earlier write (and not changed since) is derived anew from the data
+        # of this write; only what the user assigned is kept
+        for attr, key, derived in self._set_from_data:
+            if getattr(attr, key) is derived:
+                setattr(attr, f'_{key}', None)
+        self._set_from_data = []
+
         def assign_if_none(attr: Attribute, value: Any, key: str = 'value') -> None:
             """Check if an attribute part has already been assigned. If not, assign it to the provided value.
 
@@ -96,6 +106,7 @@ class FrameItem(EFLRItem):
             if getattr(attr, key) is None and value is not None:
                 logger.debug(f"Setting {attr.label}.{key} of {self} to {value}")
                 setattr(attr, key, value)
+                self._set_from_data.append((attr, key, getattr(attr, key)))
 
         index_channel: ChannelItem = self.channels.value[0]
         index_data = data[index_channel.name][:]
